@@ -275,7 +275,7 @@ def full_word_def(rng):
     """States that fill the 64-bit word exactly (n * w = 64) and whose orbit contains the extreme codes: all bits set
     but the top one (int64 max), only the top bit (int64 min), all bits set (-1).  Cyclic shifts (+ a swap): orbit <= a
     few hundred states."""
-    w = rng.choice([1, 1, 2, 4, 8])
+    w = rng.choice([1, 1, 2, 4])  # not 8: the library requires central-state entries < n, and 255 >= 8
     n = 64 // w
     top = 2**w - 1
     kind = rng.choice(["max-but-top", "only-top", "all-but-one-zero", "two-special"])
